@@ -7,6 +7,7 @@ pub mod c05;
 pub mod c06;
 pub mod c07;
 pub mod c08;
+pub mod c09;
 pub mod c13;
 pub mod c15;
 pub mod c16;
@@ -22,6 +23,7 @@ pub const ALL: &[(&str, RunFn)] = &[
     ("C06", c06::run),
     ("C07", c07::run),
     ("C08", c08::run),
+    ("C09", c09::run),
     ("C13", c13::run),
     ("C15", c15::run),
     ("C16", c16::run),
